@@ -45,6 +45,21 @@ def key_tok(k):
     return 's' + enc_str(k)
 
 
+def canon_float_toks(ans):
+    """the model carries a parsed float as its source text, the implementation shows repr(float): compare by value ('0.' and '0.0' are one float)"""
+    out = []
+    for tok in ans.split(' '):
+        if tok.startswith('f') and ':' in tok:
+            body, act = tok[1:].rsplit(':', 1)
+            try:
+                text = ''.join(chr(int(c)) for c in body.split('.')) if body else ''
+                tok = 'f' + enc_str(repr(float(text))) + ':' + act
+            except (ValueError, OverflowError):
+                pass
+        out.append(tok)
+    return ' '.join(out)
+
+
 def elems_tok(elems):
     if not elems:
         return '-'
@@ -269,7 +284,7 @@ def run(ctx, impl_only=False):
             in_universe = o['elements'] is not None and all(e is None or isinstance(e, (str, int, float, bool)) for e, _ in o['elements'])
             if o['elements'] is not None and not in_universe:
                 ctx.count('parse_out_of_universe')        # a broken rendering (F8a) can leave an element text such as b'x' or (1, 2): literal_eval gives a type outside the key universe
-            elif o['elements'] is not None and ap[j] != elems_tok(o['elements']):
+            elif o['elements'] is not None and canon_float_toks(ap[j]) != elems_tok(o['elements']):
                 ctx.diverge(case, elems_tok(o['elements']), ap[j], op='PPARSE')
             if lines_s[j]:
                 a = next(as_)
